@@ -43,7 +43,7 @@ TrReset ==
   /\ wch' = [c \in Call |-> "cur"] /\ prevOpen' = [c \in Call |-> "none"] /\ ret' = [c \in Call |-> ""]
   /\ peers' = [p \in Peer |-> NoPeer] /\ lst' = [x \in LCall |-> "idle"] /\ lusurp' = [x \in LCall |-> FALSE] /\ lx' = [x \in LCall |-> [nonce |-> 0, repl |-> FALSE]]
   /\ lsent' = [x \in LCall |-> {}] /\ lwch' = [x \in LCall |-> "cur"] /\ lstale' = [x \in LCall |-> FALSE]
-  /\ lret' = [x \in LCall |-> ""] /\ badDeliv' = FALSE /\ dropFlag' = [c \in Call |-> FALSE] /\ badReq' = FALSE
+  /\ lret' = [x \in LCall |-> ""] /\ badDeliv' = FALSE /\ dropFlag' = [c \in Call |-> FALSE] /\ badReq' = FALSE /\ pend' = [c \in Call |-> 0]
   /\ abs' = [k \in Key |-> 0] /\ outs' = [c \in Call |-> <<>>] /\ louts' = [x \in LCall |-> <<>>]
 
 TrReg ==
